@@ -39,6 +39,46 @@ Theorem C17_fixed_same_length :
     length (dictionary_suggestion Q (xwith_smart c true) buffer typed) = length (dictionary_suggestion Q (xwith_smart c false) buffer typed).
 Proof. exact fixed_same_length. Qed.
 
+(** Phonetic method, the whole list, position by position, for EVERY dictionary, memo, user list, learned selections,
+    option set and typed text with a word part - under [same_checks]: the four places where the code compares the
+    raw typed text with something that is curled in one setting only (twice with the leading part, twice in the
+    duplicate check against the list) come out the same.  Where they do not, the lists really differ: that is the
+    open finding self-transliterating-word-in-quotes ([C17_same_length_refuted] below), so the proviso is exact.
+    Each candidate with the option on is the candidate at the same position with it off: identical only if it is the
+    raw typed text or the emoticon's emoji, otherwise the same core text with the same rank re-wrapped in the curled
+    outer parts. *)
+Theorem C17_phonetic_lists_correspond :
+  forall (Q : oracles) c m uac sels term, sp_word (split term false) <> [] -> same_checks Q c m uac term ->
+    let '(_, l_on, _, _) := suggest Q (with_smart c true) m uac sels term in
+    let '(_, l_off, _, _) := suggest Q (with_smart c false) m uac sels term in
+    Forall2 (curl_rel_id (phon_id Q term) (sg_pre Q (with_smart c false) term) (sg_tr Q (with_smart c false) term)) l_on l_off.
+Proof. exact phon_lists_correspond_id. Qed.
+
+(** ... and the preselected index is the same, provided neither the raw text nor the emoticon's emoji happens to be
+    the very text the learned selection asks for *)
+Theorem C17_phonetic_same_preselection :
+  forall (Q : oracles) c m uac sels term, sp_word (split term false) <> [] -> same_checks Q c m uac term ->
+    (forall x b, x = term \/ emoticon Q term = Some x ->
+       x <> sg_pre Q (with_smart c b) term ++ selected_text Q sels (sg_word Q (with_smart c false) term) ++ sg_tr Q (with_smart c b) term) ->
+    let '(_, _, _, s_on) := suggest Q (with_smart c true) m uac sels term in
+    let '(_, _, _, s_off) := suggest Q (with_smart c false) m uac sels term in
+    s_on = s_off.
+Proof. exact phon_preselection_same. Qed.
+
+(** Fixed method, the whole list, position by position, for EVERY dictionary, emoji table, option set and composition
+    with a word part: the candidate at each position with the option on is the candidate at the same position with it
+    off - identical (the emoticon's emoji, the raw key text), or the same core text with the same rank, wrapped in the
+    curled outer parts instead of the straight ones.  Length, order and preselection (always the first) follow. *)
+Theorem C17_fixed_lists_correspond :
+  forall (Q : oracles) c buffer typed, sp_word (split buffer true) <> [] ->
+    Forall2 (curl_rel (sp_pre (split buffer true)) (sp_trail (split buffer true)))
+            (dictionary_suggestion Q (xwith_smart c true) buffer typed) (dictionary_suggestion Q (xwith_smart c false) buffer typed).
+Proof. exact fixed_lists_correspond. Qed.
+Check C17_fixed_lists_correspond : forall (Q : oracles) c buffer typed, sp_word (split buffer true) <> [] ->
+    Forall2 (fun a b => a = b \/ exists s, rstr b = sp_pre (split buffer true) ++ s ++ sp_trail (split buffer true) /\
+                                          a = set_rstr b (map curl_open (sp_pre (split buffer true)) ++ s ++ map curl_close (sp_trail (split buffer true))))
+            (dictionary_suggestion Q (xwith_smart c true) buffer typed) (dictionary_suggestion Q (xwith_smart c false) buffer typed).
+
 (** Sorting commutes with every re-wrapping that keeps the ranks, so order and positions coincide. *)
 Theorem C17_sort_commutes_with_rewrapping : forall f l, keeps_rank f -> sort_ranks (map f l) = map f (sort_ranks l).
 Proof. exact sort_map. Qed.
@@ -59,7 +99,15 @@ Example C17_nonvacuous :
   map (fun x => map uncurl (rstr x)) l_on = map rstr l_off /\ s_on = s_off /\ map rstr l_on <> map rstr l_off.
 Proof. vm_compute. repeat split. discriminate. Qed.
 
+(** the proviso holds for ordinary quoted words (here "ka" typed with both quotes, every option on) *)
+Example C17_same_checks_somewhere : same_checks test_oracles cfg_all_on [] [] [34; 107; 97; 34].
+Proof. constructor; vm_compute; reflexivity. Qed.
+
 Print Assumptions C17_quoter_uncurl.
 Print Assumptions C17_dictionary_part.
 Print Assumptions C17_fixed_same_length.
 Print Assumptions C17_only_punctuation_phonetic.
+
+Print Assumptions C17_fixed_lists_correspond.
+Print Assumptions C17_phonetic_lists_correspond.
+Print Assumptions C17_phonetic_same_preselection.
